@@ -12,7 +12,12 @@ CLAIMS = {
              'next_batches_fuel / previous_batches_fuel = termination for every parameter tuple, batch_lists_start_at_links); '
              'DT_InSV.opt and the while loops of next_batches / previous_batches are TRANSLATED from /repo on every run '
              '(GenCode.lean) and proved equal to the model (gen_opt_is_model, gen_next_batches_is_model, '
-             'gen_previous_batches_is_model, gen_batch_list_inputs); model tied to /repo by a correspondence run over the '
+             'gen_previous_batches_is_model, gen_batch_list_inputs); int_param and the prologue of renderwb (the int_param calls, '
+             'opt + the clamp of end, the sequence-step-* stores, the previous / next renderings) are translated too (GenIn.lean: '
+             'gen_int_param_is_model, gen_int_param_name_is_model, gen_int_param_literal, gen_int_param_default, gen_in_param_calls, '
+             'gen_in_window_is_model, gen_in_bwin_is_model, gen_in_batch_vars_is_model, gen_in_mode_is_model, '
+             'gen_in_previous_is_model, gen_in_next_is_model, gen_in_previous_is_inBatch, gen_in_next_is_inBatch, '
+             'gen_in_single_is_links); model tied to /repo by a correspondence run over the '
              'exhaustive small-scope grid (windows, links, batch lists incl. overlap >= size) plus an independent oracle on the '
              'real tag',
         note='Trusted: Lean kernel (axioms propext/Classical.choice/Quot.sound only); hand-written model of '
